@@ -173,28 +173,40 @@ def writeControl (c : Control) (token : Option Token) (ack : Nat) (cap : Nat) : 
        else .panic "ControlPacket::write: result.len() <= MAX_PACKETSIZE")
   | r => r
 
-/-- the `Chunks` arm of `ConnectedPacket::write_impl` -/
-def writeChunks (t : Huffman.Table) (ack : Nat) (token : Option Token) (requestResend : Bool)
-    (numChunks : Nat) (payload : List UInt8) (cap : Nat) : WriteResult :=
-  -- `token_buffer.write(..)` is `io::Write for ArrayVec`: silently truncates at 2048 bytes
-  let payload' := match token with
-    | some tk => (payload ++ tk.toList).take TOKEN_BUFFER_CAP
-    | none => payload
-  let comp := Huffman.compressInto t false payload' COMPRESSION_BUFFER_CAP
-  let useComp := match comp with
-    | some s => decide (s.length < payload'.length)
-    | none => false
+/-- `token_buffer`: payload and token copied through `io::Write for ArrayVec<[u8; 2048]>`, which
+truncates silently at the capacity -/
+def tokenExtend (payload : List UInt8) (token : Option Token) : List UInt8 :=
+  match token with
+  | some tk => (payload ++ tk.toList).take TOKEN_BUFFER_CAP
+  | none => payload
+
+/-- the compression decision of `write_impl`: `some s` = the compressed form `s` is sent (it fitted
+into the 2048-byte buffer and is strictly shorter than `p`), `none` = `p` is sent as it is -/
+def chooseCompression (t : Huffman.Table) (p : List UInt8) : Option (List UInt8) :=
+  match Huffman.compressInto t false p COMPRESSION_BUFFER_CAP with
+  | some s => if s.length < p.length then some s else none
+  | none => none
+
+/-- the `Chunks` arm of `ConnectedPacket::write_impl` after the token was appended -/
+def writeChunksCore (t : Huffman.Table) (ack : Nat) (requestResend : Bool) (numChunks : Nat)
+    (p : List UInt8) (cap : Nat) : WriteResult :=
+  let comp := chooseCompression t p
   let flags := (if requestResend then PACKETFLAG_REQUEST_RESEND else 0)
-               ||| (if useComp then PACKETFLAG_COMPRESSION else 0)
+               ||| (if comp.isSome then PACKETFLAG_COMPRESSION else 0)
   match PacketHeader.pack { flags := flags, ack := ack, numChunks := numChunks } with
   | none => .panic "PacketHeader::pack"
   | some hdr =>
   match bufWrite cap [] (ofNat3 hdr) with
   | none => .capacity
   | some b1 =>
-  match bufWrite cap b1 (if useComp then comp.getD [] else payload') with
+  match bufWrite cap b1 (comp.getD p) with
   | none => .capacity
   | some b2 => .ok b2
+
+/-- the `Chunks` arm of `ConnectedPacket::write_impl` -/
+def writeChunks (t : Huffman.Table) (ack : Nat) (token : Option Token) (requestResend : Bool)
+    (numChunks : Nat) (payload : List UInt8) (cap : Nat) : WriteResult :=
+  writeChunksCore t ack requestResend numChunks (tokenExtend payload token) cap
 
 /-- `write_connless_packet` -/
 def writeConnless (payload : List UInt8) (cap : Nat) : WriteResult :=
